@@ -298,6 +298,15 @@ func (s *Syncer[H]) verifyBifurcating(ctx context.Context, subjHead, newHead H) 
 				err,
 			)
 		}
+		// the getter is not trusted to answer with the height it was asked for: a header of
+		// another height would keep this loop spinning (diff reaches 0 and stays there)
+		if !candidateHeader.IsZero() && candidateHeader.Height() != candidateHeight {
+			return fmt.Errorf(
+				"bifurcation: getter returned a header at height %d for height %d",
+				candidateHeader.Height(),
+				candidateHeight,
+			)
+		}
 
 		if err := header.Verify(subjHead, candidateHeader); err != nil {
 			log.Warnw(
